@@ -82,10 +82,10 @@ def profile(prop, g):
     kw = dict(layout=g.choice([0, 1, 1, 2]), p_doc=0.5, max_depth=3, max_items=6, malformed=0.0)
     cfg = copy.deepcopy(base_cfg)
     if prop == 'C01':
-        kw.update(p_doc=0.85, layout=g.choice([1, 2, 2]), max_items=5)
+        kw.update(p_doc=0.85, layout=g.choice([1, 2, 2]), max_items=5, p_docimpl=g.choice([0, 0, 0.4]), p_stale=g.choice([0, 0, 0.3]))
     elif prop == 'C02':
         kw.update(max_depth=4, layout=g.choice([1, 2, 2]), malformed=g.choice([0, 0, 0, 0.15]), p_docimpl=g.choice([0, 0, 0.4]),
-                  p_dup=g.choice([0, 0.35]), weights={'dangling': 1.5, 'generic': 2.0, 'blk': 1.5})
+                  p_dup=g.choice([0, 0.35]), p_stale=g.choice([0, 0, 0, 0.25]), weights={'dangling': 1.5, 'generic': 2.0, 'blk': 1.5})
     elif prop == 'C03':
         kw.update(max_depth=4, p_docimpl=g.choice([0, 0, 0.4]), weights={'func': 3, 'macro': 3, 'cpa': 4, 'blk': 2, 'member': 2, 'cttest': 1.5, 'class': 1.5,
                                         'set': 0.3, 'option': 0.3, 'add_test': 0.3, 'generic': 0.5, 'dangling': 0.3})
@@ -98,14 +98,14 @@ def profile(prop, g):
     elif prop == 'C09':
         kw.update(max_depth=4, weights={'class': 5, 'member': 3, 'attr': 3, 'ctor': 2, 'func': 0.7, 'set': 0.4, 'option': 0.3,
                                         'add_test': 0.2, 'cttest': 0.4, 'dangling': 0.3, 'generic': 0.6},
-                  malformed=g.choice([0, 0, 0.15]), p_docimpl=g.choice([0, 0, 0.4]))
+                  malformed=g.choice([0, 0, 0.15]), p_docimpl=g.choice([0, 0, 0.4]), p_stale=g.choice([0, 0, 0, 0.25]))
         cfg['regex']['member'] = g.choice(['', '^_[a-z]*_', 'x', '^.'])
     elif prop == 'C10':
         kw.update(weights={'set': 6, 'option': 5, 'func': 0.7, 'class': 0.3, 'cttest': 0.2, 'add_test': 0.3}, p_doc=0.7,
                   malformed=g.choice([0, 0, 0.15]))
     elif prop == 'C11':
         kw.update(weights={'cttest': 5, 'section': 5, 'add_test': 5, 'func': 0.5, 'class': 0.3, 'set': 0.3}, p_doc=0.6, max_depth=4,
-                  malformed=g.choice([0, 0, 0.15]), p_docimpl=g.choice([0, 0, 0.4]))
+                  malformed=g.choice([0, 0, 0.15]), p_docimpl=g.choice([0, 0, 0.4]), p_stale=g.choice([0, 0, 0, 0.25]))
     elif prop == 'C04':
         kw.update(layout=2, max_items=5)
     elif prop == 'C05':
@@ -158,7 +158,8 @@ def compare_case(prop, m, cfg, src, model, real):
         # implementing definitions with doccomments of their own: both readings of the property text are accepted for that
         # definition's own entry; everything else on the page is prescribed as usual
         tags.append('wf-with-documented-impl')
-        specs = [GM.spec_entries(m, cfg, reading=r) for r in ('A', 'B', 'A2')]
+        # C01 ("no doccomment line is dropped") leaves no choice: the definition's own doccomment must appear, so it has an entry
+        specs = [GM.spec_entries(m, cfg, reading=r) for r in (('A', 'A2', 'A2') if prop == 'C01' else ('A', 'B', 'A2'))]
         if specs[0] is None: tags.append('K1-region')
         elif 'err' in real: vio = dict(kind='well-formed module rejected', real=real)
         else:
@@ -167,6 +168,17 @@ def compare_case(prop, m, cfg, src, model, real):
             if pr not in pes:
                 vio = dict(kind='output differs from what the module prescribes (under either reading of a documented implementing definition)',
                            expected=pes[0], expected_other_reading=pes[1], real=pr)
+    elif prop == 'C01' and not wf and not has_crlf_doc(m) and 'err' not in real:
+        # no structural prescription for this module (malformed stream, declarations that are never implemented, ...), but the
+        # property still says where the text of a doccomment on a function/macro definition goes: into the page, line for line
+        tags.append('containment-only')
+        for it in GM.walk_items(m['items']):
+            if it['k'] == 'block' and it.get('doc') is not None and GM.cname(it['open']) in ('function', 'macro') and len(GM.singles(it['open'])) >= 1:
+                para = "\n".join("   " + l for l in GM.doc_text(it['doc']).split("\n"))
+                if "\n" + para + "\n" not in real['rst']:
+                    vio = dict(kind='the doccomment of a function/macro definition does not appear in the page', definition=GM.singles(it['open'])[0],
+                               expected_lines=para, real=real['rst'])
+                    break
     return dis, vio, tags
 
 
